@@ -324,6 +324,12 @@ def build_inputs(tier, seed, res):
                "7b7fffffffffffffff", "d86bbb00000000ffffffff", "c11b9b9b9b0000000000", "95393b7b7b7b7b7b7b7b7b7b7b7b7b7b", "d8250010600000006010000000000000",
                "d81e84ffffffff", "d8234129", "d86b" + "81" * 300, "d86b" + "d86b" * 300 + "a0", "9f" * 100, "bf" * 50]:
         inputs.append((bytes.fromhex(hx), False, "junk"))
+    # a long run of tag heads in front of anything (nothing, an integer, an envelope map): nesting far beyond what any decoder accepts in a 1-10 kB
+    # input, met by whatever looks at the bytes *before* the decoder does (C17-p)
+    for n in (500, 990, 1200, 5000):
+        for head in ("c6", "d86b", "d9d9f7"):
+            for tail in ("", "00", "a0", "a10240"):
+                inputs.append((bytes.fromhex(head * n + tail), False, "junk:tag-run"))
     # nesting sweeps
     levels = [1, 5, 20, 60, 100, 140, 160, 170, 180, 200, 250, 399, 400] if tier == "quick" else list(range(1, 400, 7)) + [399, 400, 600, 1000]
     for lv in levels:
